@@ -2,8 +2,11 @@ package c03
 
 import (
 	"bytes"
+	"fmt"
 	"math/rand"
 	"sort"
+	"strconv"
+	"strings"
 
 	"github.com/LiskHQ/lisk-engine/pkg/blockchain"
 
@@ -221,10 +224,23 @@ func (ks *keyedSet) subsetAlterations(r *rand.Rand) []subsetMutant {
 		}
 		return string(b)
 	}
+	// the label carries the failing input in readable form: signer positions in key order, their true
+	// weight, the threshold and the misread sum
+	describe := func(label string, pos []int, name string) string {
+		ps := make([]string, len(pos))
+		for i, x := range pos {
+			ps[i] = strconv.Itoa(x)
+		}
+		d := fmt.Sprintf("%s[signers@%s,weight=%d,threshold=%d", label, strings.Join(ps, "+"), ks.weightOf(pos), thr)
+		if name != "" {
+			d += fmt.Sprintf(",%s-sum=%d", name, ks.misreadings(pos)[name])
+		}
+		return d + "]"
+	}
 	for _, name := range names {
 		if pos := light[name]; pos != nil && !seen["R"+key(pos)] {
 			seen["R"+key(pos)] = true
-			res = append(res, subsetMutant{"ac-light-subset-vs-" + name, expReject, pos})
+			res = append(res, subsetMutant{describe("ac-light-subset-vs-"+name, pos, name), expReject, pos})
 		}
 	}
 	// accepted candidates cost the runner a rebuild of the node: one per probe (the first misreading
@@ -232,15 +248,15 @@ func (ks *keyedSet) subsetAlterations(r *rand.Rand) []subsetMutant {
 	for _, name := range names {
 		if pos := heavy[name]; pos != nil {
 			seen["A"+key(pos)] = true
-			res = append(res, subsetMutant{"ac-heavy-subset-vs-" + name, expAccept, pos})
+			res = append(res, subsetMutant{describe("ac-heavy-subset-vs-"+name, pos, name), expAccept, pos})
 			break
 		}
 	}
 	if below != nil && !seen["R"+key(below)] {
-		res = append(res, subsetMutant{"ac-subset-just-below-threshold", expReject, below})
+		res = append(res, subsetMutant{describe("ac-subset-just-below-threshold", below, ""), expReject, below})
 	}
 	if above != nil && !seen["A"+key(above)] && len(above) < len(ks.vals) {
-		res = append(res, subsetMutant{"ac-subset-minimal-quorum", expAccept, above})
+		res = append(res, subsetMutant{describe("ac-subset-minimal-quorum", above, ""), expAccept, above})
 	}
 	return res
 }
